@@ -230,34 +230,44 @@ def run(ctx, pid='C03'):
           'a lunar month is accepted iff 1<=|m|<=12 and (leap => it is the year\'s leap month); its position in the year counts the leap month right after its twin', str, fn_site(p, 'LunarMonth::new'))
 
     # next() walks positions in order and back (all 13x13 leap positions), incl. into the neighbouring years
-    def walk_year(y):
-        m = I2.call('LunarMonth::from_ym', [y, 1])
-        seq = []
-        for _ in range(14):
-            if py(t2.m(m, 'get_year')) != y:
-                break
-            seq.append(py(t2.m(m, 'get_month_with_leap')))
-            m = t2.m(m, 'next', 1)
-        nxt = (py(t2.m(m, 'get_year')), py(t2.m(m, 'get_month_with_leap')))
-        back = t2.m(m, 'next', -1)
-        prevy = t2.m(I2.call('LunarMonth::from_ym', [y, 1]), 'next', -1)
-        return (seq, nxt, (py(t2.m(back, 'get_year')), py(t2.m(back, 'get_month_with_leap'))), (py(t2.m(prevy, 'get_year')), py(t2.m(prevy, 'get_month'))))
-
-    def walk_orc(y):
+    def year_seq(y):
         L = year_leap.get(y, 0)
         seq = []
         for m in range(1, 13):
-            seq.append(m)
+            seq.append((y, m))
             if m == L:
-                seq.append(-m)
-        return (seq, (y + 1, 1), (y, seq[-1]), (y - 1, 12))
-    table(ctx, 'PETE-STUB', 'LunarMonth::next:order', list(sample.values()) + [common], walk_year, walk_orc,
-          'stepping month by month visits 1..12 with the leap month directly after its twin, then month 1 of the next year; stepping back returns', str, fn_site(p, 'LunarMonth::next'))
+                seq.append((y, -m))
+        return seq
+
+    def walk_year(y):
+        # three consecutive lunar years walked forwards, then backwards, in one process (the month memo is live)
+        m = I2.call('LunarMonth::from_ym', [y - 1, 1])
+        fwd = []
+        n = len(year_seq(y - 1)) + len(year_seq(y)) + len(year_seq(y + 1))
+        for _ in range(n):
+            fwd.append((py(t2.m(m, 'get_year')), py(t2.m(m, 'get_month_with_leap')), py(t2.m(m, 'get_index_in_year'))))
+            m = t2.m(m, 'next', 1)
+        back = []
+        for _ in range(n):
+            m = t2.m(m, 'next', -1)
+            back.append((py(t2.m(m, 'get_year')), py(t2.m(m, 'get_month_with_leap'))))
+        return (fwd, back)
+
+    def walk_orc(y):
+        seq = year_seq(y - 1) + year_seq(y) + year_seq(y + 1)
+        fwd = []
+        for yy in (y - 1, y, y + 1):
+            for i, (a, b) in enumerate(year_seq(yy)):
+                fwd.append((a, b, i))
+        return (fwd, list(reversed(seq)))
+    wy = [y for y in list(sample.values()) + [common] if (y - 1) not in reform_years(p) and y not in reform_years(p)]
+    table(ctx, 'PETE-STUB', 'LunarMonth::next:order', wy, walk_year, walk_orc,
+          'stepping month by month through three lunar years visits 1..12 with the leap month directly after its twin, positions counting up, and stepping back retraces the same months', str, fn_site(p, 'LunarMonth::next'))
 
     # stride: with calc_shuo(x) = trunc(1000 x), first(k+1) - first(k) must equal the length computed for month k
     def stride(x):
         y, k = x
-        seqm = walk_orc(y)[0]
+        seqm = [b for a, b in year_seq(y)]
         a = I2.call('LunarMonth::new', [y, seqm[k]]).v
         b = I2.call('LunarMonth::new', [y, seqm[k + 1]]).v
         fa = t2.m(t2.m(a, 'get_first_julian_day'), 'get_day')
